@@ -399,7 +399,7 @@ class GFCrystalcalc(object):
         for gop, pair in zip(self.grouparray, self.indexpair[i][j]):
             gIFT += np.dot(self.wts, self.gsc_ijq[pair[0], pair[1]] * self.exp_dxq(np.dot(gop, dx)))
         gIFT /= self.NG
-        if not np.isclose(gIFT.imag, 0): raise ArithmeticError("Got complex IFT? {}".format(gIFT))
+        if abs(gIFT.imag) > 1e-5*max(1., abs(gIFT.real)): raise ArithmeticError("Got complex IFT? {}".format(gIFT))
         # evaluate Taylor expansion component:
         gTaylor = self.gT_ij[i][j](np.dot(self.uxtrans, dx), self.g_Taylor_fnlu)
         if not np.isclose(gTaylor.imag, 0): raise ArithmeticError("Got complex IFT from Taylor? {}".format(gTaylor))
